@@ -95,7 +95,6 @@ Qed.
 Lemma errs_eqb_refl e : list_eqb err_eqb e e = true.
 Proof. apply (list_eqb_eq err_eqb err_eqb_eq). reflexivity. Qed.
 
-Definition codes (es : list cerr) : list (N * N) := map (fun e => (ekind_code (fst e), snd e)) es.
 
 Lemma check_of_result k s t es :
   compile probe_fs s = Ok (t, es) -> claim_static k s = true ->
@@ -122,7 +121,7 @@ Qed.
 (* the boolean form accepts what the model produces, for every well-formed claim *)
 Theorem check_sound k s : claim_static k s = true -> C09_check k s (obs_of (compile probe_fs s)) = true.
 Proof.
-  intros Hs. destruct k as [|s0|c|c w c'|c q|c call c'|c f lit w]; cbn [claim_static] in Hs.
+  intros Hs. destruct k as [|s0|c|c w c'|c q|c call c'|c f lit w|c f x]; cbn [claim_static] in Hs.
   - (* raw *)
     pose proof (compile_total probe_fs s) as Ht.
     destruct (compile probe_fs s) as [[t es]|] eqn:Hc; [|congruence].
@@ -190,7 +189,19 @@ Proof.
     + intros eo ee E'. cbn [claim_expect] in E'. inversion E'; subst. split; [|reflexivity].
       rewrite eval_app, eval_norm. f_equal. cbn [eval map concat eval_piece join].
       change (concat (map eval_piece (norm (erase [CLit lit]) ++ norm (erase [])))) with (eval (norm (erase [CLit lit]) ++ norm (erase []))).
-      rewrite eval_app, !eval_norm. cbn. rewrite !app_nil_r. reflexivity.
+      rewrite eval_app, !eval_norm. cbn. rewrite !app_nil_r. reflexivity.  - (* any verbatim argument: errors re-based *)
+    apply andb_true_iff in Hs as [Hs0 Hs]. apply str_eqb_eq in Hs. subst s.
+    apply andb_true_iff in Hs0 as [Hs0 Hne]. apply andb_true_iff in Hs0 as [Hs0 HxS].
+    apply andb_true_iff in Hs0 as [Hs0 HxO]. apply andb_true_iff in Hs0 as [Hc Hf].
+    destruct (wf2_inv _ Hc) as [H1 H2]. destruct (plain_probe f Hf) as [Hfs Hitem].
+    assert (Hne' : x <> []) by (destruct x; [discriminate|congruence]).
+    pose proof (compile_total probe_fs x) as Ht.
+    destruct (compile probe_fs x) as [[tx ex]|] eqn:Hx; [|congruence].
+    pose proof (err_rebase true probe_fs c f (fun _ => None) x tx ex H1 H2 Hitem Hfs eq_refl HxO HxS Hne' Hx) as E.
+    apply (check_of_result (KArg c f x) _ _ _ E).
+    + cbn [claim_static]. rewrite Hc, Hf, HxO, HxS, Hne, str_eqb_refl. reflexivity.
+    + intros eo ee E'. cbn [claim_expect] in E'. rewrite Hx in E'. inversion E'; subst. split; [|reflexivity].
+      rewrite eval_app, eval_norm. f_equal. cbn [eval map concat eval_piece join]. rewrite app_nil_r. reflexivity.
 Qed.
 
 (* ---- statements collected for Props/C09.v ---- *)
